@@ -45,6 +45,8 @@ def sortGroups (mine : List (Nat × List CfiDir)) : List (Nat × List CfiDir) :=
 /-- `_required_cfi_directives(block)` -/
 def IR.requiredCfi (ir : IR) (blk : Block) : List CfiDir :=
   if !blk.isCode then []
+  -- an empty block has no instructions its directives could describe: all are kept
+  else if blk.size == 0 then ((sortGroups (cfiGet ir.aux.cfi blk.id)).map (·.2)).flatten
   else requiredGroups ((sortGroups (cfiGet ir.aux.cfi blk.id)).map (·.2))
 
 def IR.isCodeBlockId (ir : IR) (b : Option Nat) : Bool :=
